@@ -837,6 +837,10 @@ func oracleC33(v *View, vd *Verdict) {
 		for _, r := range v.R.Plan.Cfg.SN.Rules {
 			if r.Act != "delay" {
 				lossy = true // (a datagram that is merely late, by less than a retry delay, loses nothing)
+			} else if r.DelayMs*nsMs+2*(v.R.Plan.Cfg.SN.MaxLatUs+1000)*1000+v.R.StalledNs >= cp.RetryDelayMs*nsMs {
+				// late by a retry delay or more once the round trip and this run's slow-node stalls are
+				// added: a reply that arrives in time but is handled too late is a lost reply
+				lossy = true
 			}
 		}
 		// once an API call has failed the client's goroutine group is cancelled: nothing more is owed
